@@ -1005,6 +1005,7 @@ func (g *ReferencesAndLatLngs) UnmarshalWithoutLength(l int, primary TypeAndName
 			i += n
 			deltaLng, n := binary.Varint(buffer[i:])
 			i += n
+			(*g)[j].Reference = ReferenceInvald // g may be reused
 			(*g)[j].LatLng.LatE7 = last.LatLng.LatE7 + int32(deltaLat)
 			(*g)[j].LatLng.LngE7 = last.LatLng.LngE7 + int32(deltaLng)
 			last.LatLng = (*g)[j].LatLng
@@ -1430,6 +1431,7 @@ func (a *AreaGeometryMixed) UnmarshalWithoutLength(l int, paths TypeAndNamespace
 		if references[j] {
 			i += a.Polygons[j].References.Unmarshal(paths, buffer[i:])
 		} else {
+			a.Polygons[j].References.Paths = a.Polygons[j].References.Paths[0:0] // a may be reused
 			i += a.Polygons[j].LatLngs.Unmarshal(buffer[i:])
 		}
 	}
